@@ -125,6 +125,11 @@ def wrap_typestate(ctx, rep, rule):
                   "%s body awaited once per task" % e.where, fn,
                   "job body `%s` can be awaited again in the same task (loop or second await)" % src(e.node),
                   "a job's body is entered more than once in one run", trace(e.st))
+    for st, val, node in out.ret:
+        rep.check(bool(st.a('body_done')), rule, "%s the wrapper returns only after the job body" % ip.where(node), fn,
+                  "`%s` reachable without `await <job>.co_run()`" % src(node),
+                  "a task ends, and its job is counted as completed, although the body of the job was never "
+                  "entered in this run", trace(st))
     for e in an.events('STORE'):
         if e.data['attr'] == r.running_attr and e.data['val'] == T.TRUE:
             rep.check(e.data['slot'] == 'Held', rule, "%s running flag" % e.where, fn,
